@@ -111,8 +111,182 @@ def compare(A, B, n1, findings, cfg, ver, fresh):
         break          # later steps inherit the divergence
     return n
 
+# ------------------------------------------------------------------ index wrap-around + save/restore + re-attachment order
+def alloc_sim(ctr, occupied):
+    """allocate_fs_idx as the specification states it: first free non-zero index from the counter on, cyclically"""
+    i = ctr
+    for _ in range(257):
+        idx, i = i, (i + 1) % 256
+        if idx != 0 and idx not in occupied: return idx, i
+    return None, i
+
+class WrapGen:
+    """drives a history in which the 8-bit index counter goes round; self.ctr = the counter value the specification predicts"""
+    def __init__(self, case, g, rng): self.c, self.g, self.rng, self.ctr = case, g, rng, 1
+    def occupied(self): return set(m['idx'] for m in self.c.mounts.values())
+    def burn(self):
+        """take one index and give it back: mount + umount of a scratch path, or a mount that fails after the allocation
+        (relative path: insert_mount_locked answers EINVAL; the counter has moved)"""
+        if self.rng.random() < 0.4:
+            idx, self.ctr = alloc_sim(self.ctr, self.occupied())
+            self.g.mount(path=mk_path(self.rng, [('N', 9)], rooted=False, noise=False), map=None, ans=okmount(self.rng))
+        else:
+            p = mk_path(self.rng, [('N', 8)], noise=False)
+            st, o = self.g.mount(path=p, map=None, ans=okmount(self.rng))
+            if o['status'] == 'ok':
+                self.ctr = (o['vals'][0] + 1) % 256; self.g.umount(p)
+            else: idx, self.ctr = alloc_sim(self.ctr, self.occupied())
+    def burn_until(self, target):
+        n = 0
+        while self.ctr != target and n < 700 and not self.c.dead: self.burn(); n += 1
+    def keep(self, k):
+        st, o = self.g.mount(path=mk_path(self.rng, [('N', k)], noise=False), map=None, ans=okmount(self.rng, self.rng.choice([1, 1, 7])))
+        if o['status'] == 'ok': self.ctr = (o['vals'][0] + 1) % 256
+        return o
+    def resync(self):
+        for st, o in zip(reversed(self.c.steps), reversed(self.c.obs)):
+            if st['k'] == 'M' and o['status'] == 'ok': self.ctr = (o['vals'][0] + 1) % 256; return
+            if st['k'] == 'M': return
+
+def probe_small(g, case, issued, k):
+    """a short probe for histories with very many mounts: options, requests on issued inode numbers, walks to a few mount
+    paths, the next two mounts (index and pseudo inode number) and their release"""
+    if case.dead: return
+    case.do({'k': 'Q'})
+    live = sorted(case.mounts.values(), key=lambda m: m['idx'])
+    for m in live[:2] + live[-2:]:
+        if case.dead: return
+        g.request('lookup', ROOT_INO, name=('norm', m['cpath'][0]), uid=0, gid=0)
+    for x in issued:
+        if case.dead: return
+        a = mk_ans(ent={'ino': 41, 'stino': 41, 'uid': 5, 'gid': 1007, 'tag': 9}, attr={'ino': 7, 'uid': 5, 'gid': 100001, 'tag': 3})
+        g.request('getattr', x, ans=a, uid=1005, gid=100007)
+        g.request('lookup', x, name=('norm', 3), ans=a, uid=100005, gid=7)
+    ps = [mk_path(g.rng, [('N', 90), ('N', 91 + k)], noise=False), mk_path(g.rng, [('N', 95 + k)], noise=False)]
+    oks = []
+    for p in ps:
+        if case.dead: return
+        st, o = g.mount(path=p, map=None, ans=okmount(g.rng))
+        if o['status'] == 'ok': oks.append(p)
+    for p in oks:
+        if case.dead: return
+        g.umount(p)
+
+def with_saves(sess, tb, cfg, B, marks, orders, ver=2, fresh='same'):
+    """A = the steps of B with a save/restore inserted before position marks[i], re-attaching in the order orders[i](n)"""
+    A = Case(sess, cfg, tb); at = dict((m, i) for i, m in enumerate(marks)); used = []
+    for j, st in enumerate(B.steps + [None]):
+        if A.dead: break
+        if j in at:
+            n = len(A.mounts); sel = orders[at[j]](n)
+            A.do({'k': 'S', 'ver': ver, 'fresh': fresh, 'order': sel}); used.append(sel)
+        if st is not None and not A.dead: A.do(copy.deepcopy(st))
+    A.finish()
+    return A, used
+
+def compare_aligned(A, B, marks, findings, ctx, only=None):
+    """every step of B after the first save point must be answered by A (which went through the save/restores) in the same
+    way; `only`: restrict the comparison to these step kinds (used when only a subset of the backends was re-attached)"""
+    n = 0; ja = 0; ms = set(marks)
+    for j in range(len(B.steps)):
+        while ja < len(A.steps) and A.steps[ja]['k'] == 'S':
+            o = A.obs[ja]
+            if o['status'] != 'ok':
+                findings.append({'what': 'save/restore failed: %s' % o['raw'][:100], 'sig': dict(kind='restore-failed', **ctx), 'input': A.replay_obj(ja)}); return n
+            badr = [r for r in o.get('reattached', []) if r[3] != 0]
+            if badr:
+                findings.append({'what': 'restore_mount failed for %s' % (badr[:3],), 'sig': dict(kind='restore-mount-failed', **ctx), 'input': A.replay_obj(ja)}); return n
+            ja += 1
+        if ja >= len(A.steps): break
+        if j >= marks[0] and (only is None or B.steps[j]['k'] in only):
+            n += 1
+            fa, fb = A.flat[ja], B.flat[j]
+            if fa == fb and A.obs[ja].get('pino') != B.obs[j].get('pino'): fa = fa + ['pino', A.obs[ja].get('pino')]
+            if fa != fb:
+                st = B.steps[j]
+                findings.append({'what': 'after save/restore with re-attachment order %s (index counter wrapped) step `%s` answers %s, without save/restore %s' % (ctx.get('order'), step_tok(st)[:160], A.obs[ja]['raw'][:200], B.obs[j]['raw'][:200]),
+                                 'sig': dict(kind='diverges', step=st['k'], op=st.get('op'), **ctx), 'input': A.replay_obj(ja)})
+                return n
+        ja += 1
+    return n
+
+ORDERS = {
+    'asc': lambda n: list(range(n)),
+    'desc': lambda n: list(range(n))[::-1],
+    'high-first': lambda n: ([n - 1] + list(range(n - 1))) if n else [],
+    'high-last-low-desc': lambda n: (list(range(n - 1))[::-1] + [n - 1]) if n else [],
+    'rot': lambda n: (list(range(n // 2, n)) + list(range(n // 2))),
+}
+
+def wrap_base(sess, rng, tb, cfg):
+    """B: two mounts at indices 200/201, the counter goes round (254 attached on the way), a low index is attached after the wrap;
+    probes at: counter above every attached index / at 255 / at 0 / below the old mounts with free indices in between /
+    resting on an attached index / between attached indices"""
+    B = Case(sess, cfg, tb); g = HistoryGen(B, rng, use_maps=False); w = WrapGen(B, g, rng); marks = []
+    def mark():
+        if B.dead: return
+        marks.append(len(B.steps)); probe(g, B, [(m['idx'] << 56) | m['root'] for m in sorted(B.mounts.values(), key=lambda m: m['idx'])][:4]); w.resync()
+    w.burn_until(200); w.keep(50); w.keep(51); mark()            # 200, 201 attached; counter 202
+    w.burn_until(254); w.keep(56); mark()                        # 254 attached; counter 255: the probe's mount takes 255, the counter wraps
+    mark()                                                       # counter 0
+    w.keep(53); w.burn_until(5); mark()                          # a low index attached after the wrap; counter 5 < 200
+    w.burn_until(200); mark()                                    # counter rests on an attached index
+    w.keep(54); mark()                                           # counter between attached indices (below 254)
+    B.finish()
+    return B, marks
+
+def wrap_cases(sess, rng, tb, tier, findings):
+    """-> (tie cases, evaluations, shapes)"""
+    q = tier == 'quick'; ties = []; evals = 0; shapes = set()
+    cfg = {'gmap': None, 'rm': 0, 'no_open': 1, 'no_opendir': 1}
+    # (a) one wrapped history, a save/restore at each of the six situations, the order of re-attachment varying
+    B, marks = wrap_base(sess, rng, tb, cfg)
+    plans = [['asc', 'desc', 'high-first', 'high-last-low-desc', 'rot', 'desc'], ['desc', 'high-first', 'asc', 'desc', 'high-last-low-desc', 'rot']]
+    if not q: plans += [[rng.choice(sorted(ORDERS)) for _ in marks] for _ in range(4)]
+    for pl in plans:
+        A, used = with_saves(sess, tb, cfg, B, marks, [ORDERS[o] for o in pl])
+        evals += compare_aligned(A, B, marks, findings, {'order': '/'.join(pl), 'wrapped': True})
+        if not q or pl is plans[0]: ties.append(A)
+        shapes.add(('wrap', tuple(pl)))
+    # one save/restore alone at every situation (a divergence at an earlier one would hide a later one)
+    for i, m in enumerate(marks):
+        for o in (['desc', 'high-first'] if q else sorted(ORDERS)):
+            A, used = with_saves(sess, tb, cfg, B, [m], [ORDERS[o]], ver=(1 if i % 2 else 2))
+            evals += compare_aligned(A, B, [m], findings, {'order': o, 'wrapped': True, 'at': i})
+            if not q or (i == 3 and o == 'desc'): ties.append(A)
+            shapes.add(('wrap1', i, o))
+    # (b) only a subset of the backends is re-attached before the next mounts: the indices and pseudo inode numbers of
+    # the new mounts must be those of the never-saved Vfs (the free indices below the old mounts are not affected)
+    B2 = Case(sess, cfg, tb); g2 = HistoryGen(B2, rng, use_maps=False); w2 = WrapGen(B2, g2, rng)
+    w2.burn_until(200); w2.keep(50); w2.keep(51); w2.keep(52); w2.burn_until(5)
+    m2 = len(B2.steps)
+    for k in range(3): g2.mount(path=mk_path(rng, [('N', 60 + k)], noise=False), map=None, ans=okmount(rng))
+    B2.finish()
+    for sel in ([0], [2], [1, 0], [], [2, 0, 1]):
+        A, used = with_saves(sess, tb, cfg, B2, [m2], [lambda n, sel=sel: [i for i in sel if i < n]])
+        evals += compare_aligned(A, B2, [m2], findings, {'order': 'subset %s' % sel, 'wrapped': True}, only=('M',))
+        if not q or sel in ([0], [2, 0, 1]): ties.append(A)
+        shapes.add(('subset', tuple(sel)))
+    # (c) the table nearly full: 250 attached mounts, the counter wrapped to 0 / resting inside the occupied range
+    B3 = Case(sess, cfg, tb); g3 = HistoryGen(B3, rng, use_maps=False); w3 = WrapGen(B3, g3, rng); marks3 = []
+    for k in range(250): w3.keep(300 + k)
+    def mark3(k):
+        if B3.dead: return
+        marks3.append(len(B3.steps)); probe_small(g3, B3, [(250 << 56) | 1, (1 << 56) | 1], k); w3.resync()
+    w3.burn_until(0); mark3(0)
+    g3.umount(mk_path(rng, [('N', 300 + 99)], noise=False)); mark3(1)       # index 100 free again, below the counter
+    B3.finish()
+    for pl in ([['desc', 'rot']] if q else [['desc', 'rot'], ['high-first', 'asc'], ['rot', 'desc']]):
+        A, used = with_saves(sess, tb, cfg, B3, marks3, [ORDERS[o] for o in pl])
+        evals += compare_aligned(A, B3, marks3, findings, {'order': '/'.join(pl), 'wrapped': True, 'full': True}); ties.append(A)
+        shapes.add(('full', tuple(pl)))
+    for c in ties: c.heavy = True
+    return ties, evals, shapes
+
 def gen_cases(sess, rng, tb, tier, findings):
     q = tier == 'quick'; tie_cases = []; evals = 0; shapes = set()
+    if not os.environ.get('VFS_NO_DET'):
+        t_, e_, s_ = wrap_cases(sess, rng, tb, tier, findings); tie_cases += t_; evals += e_; shapes |= s_
     plans = []
     for i in range(6 if q else 60):
         use_maps = i % 3 != 0
@@ -209,7 +383,10 @@ def run_check(tier, seed):
     sess = Session(bindir)
     cases, evals, shapes = gen_cases(sess, rng, tb, tier, findings)
     dis = []
-    if audit['ok'] and okm: dis = check_model('c19', cases, ev, broken, shard=6)
+    if audit['ok'] and okm:
+        heavy = [c for c in cases if getattr(c, 'heavy', False)]          # long wrap-around histories: one coqc each
+        dis = check_model('c19', [c for c in cases if not getattr(c, 'heavy', False)], ev, broken, shard=6)
+        if heavy: dis += check_model('c19w', heavy, ev, broken, shard=1)
     rounds = 1
     new_findings = [f for f in findings if finding_known(f, known_findings(PROP)) is None]
     if (dis or broken) and not new_findings:
